@@ -106,11 +106,15 @@ Lemma cstep_spec s op :
 Proof.
   intros Hw Hc. destruct op; cbn [cstep fst] in *; cbn [c_cur c_rec] in *;
     try (split; [exact Hw|split; lia]).
-  pose proof (backend_compact_spec s r nranges commit_ok Hw) as H.
-  destruct (backend_compact s r nranges commit_ok) as [s' [h res]] eqn:E. cbn [fst] in *.
-  assert (Hc' : c_cur s < two64).
-  { pose proof (bc_cur s r nranges commit_ok) as Hb. rewrite E in Hb. cbn [fst] in Hb. lia. }
-  destruct (H Hc') as (H1 & H2 & _ & H4 & _). repeat split; try assumption; lia.
+  - pose proof (backend_compact_spec s r nranges commit_ok Hw) as H.
+    destruct (backend_compact s r nranges commit_ok) as [s' [h res]] eqn:E. cbn [fst] in *.
+    assert (Hc' : c_cur s < two64).
+    { pose proof (bc_cur s r nranges commit_ok) as Hb. rewrite E in Hb. cbn [fst] in Hb. lia. }
+    destruct (H Hc') as (H1 & H2 & _ & H4 & _). repeat split; try assumption; lia.
+  - pose proof (backend_compact_spec (mkC (c_cur s) 0 (c_rec s)) r nranges true Hw) as H.
+    destruct (backend_compact (mkC (c_cur s) 0 (c_rec s)) r nranges true) as [s' [h res]] eqn:E.
+    cbn [fst c_cur c_rec] in *.
+    destruct (H Hc) as (H1 & _ & _ & H4 & _). repeat split; try assumption; lia.
 Qed.
 
 Lemma crun_cur_mono ops : forall s, c_cur s <= c_cur (crun s ops).
@@ -119,7 +123,8 @@ Proof.
   specialize (IH (fst (cstep s op))).
   assert (c_cur s <= c_cur (fst (cstep s op))); [|lia].
   destruct op; cbn [cstep fst c_cur]; try lia.
-  unfold backend_compact. destruct (set_compact_record _ _ _); cbn [fst c_cur]; lia.
+  - unfold backend_compact. destruct (set_compact_record _ _ _); cbn [fst c_cur]; lia.
+  - destruct (backend_compact _ _ _ _) as [s' [h res]]. cbn [fst c_cur]. lia.
 Qed.
 
 Lemma crun_spec ops : forall s,
@@ -152,6 +157,20 @@ Proof.
   { pose proof (bc_cur s r n ok) as Hbc. rewrite Eb in Hbc. cbn [fst] in Hbc. lia. }
   destruct (H Hcs) as (Hw1 & _ & _ & _ & Hh & _ & Hok). specialize (Hok eq_refl).
   pose proof (floor_monotone ops s' Hw1 Hc). repeat split; try assumption; lia.
+Qed.
+
+Lemma accepted_sets_floor2 s r n s' h ops :
+  cwf s -> cstep s (CCompact2 r n) = (s', OCompact h COk) -> c_cur (crun s' ops) < two64 ->
+  h = clamp (c_cur s) 0 r /\ h <= floor_of (c_rec s') /\ h <= floor_of (c_rec (crun s' ops)).
+Proof.
+  intros Hw E Hc. cbn [cstep] in E.
+  pose proof (backend_compact_spec (mkC (c_cur s) 0 (c_rec s)) r n true Hw) as H.
+  destruct (backend_compact (mkC (c_cur s) 0 (c_rec s)) r n true) as [s1 [h1 res]] eqn:Eb. injection E as <- -> ->.
+  pose proof (crun_cur_mono ops (mkC (c_cur s) (c_retry s) (c_rec s1))) as Hm. cbn [c_cur] in *.
+  assert (Hcs : c_cur s < two64) by lia.
+  destruct (H Hcs) as (Hw1 & _ & _ & _ & Hh & _ & Hok). specialize (Hok eq_refl).
+  pose proof (floor_monotone ops (mkC (c_cur s) (c_retry s) (c_rec s1)) Hw1 Hc) as Hf. cbn [c_rec] in *.
+  repeat split; try assumption; lia.
 Qed.
 
 (* C08_below_refused: every range read served at a revision below the floor returns the error *)
@@ -242,12 +261,17 @@ Proof.
     + apply rec_wfb_of. exact Hw1.
     + apply N.leb_le. exact Hfm.
     + destruct (s8_op st) eqn:Eop; try reflexivity.
-      cbn [cstep] in E. pose proof (backend_compact_spec s r nranges commit_ok Hw) as Hb.
-      destruct (backend_compact s r nranges commit_ok) as [s1 [h res]] eqn:Eb. injection E as <- <-.
-      destruct res; try reflexivity.
-      assert (Hcs : c_cur s < two64).
-      { pose proof (bc_cur s r nranges commit_ok) as Hbc. rewrite Eb in Hbc. cbn [fst] in Hbc. lia. }
-      apply N.leb_le. apply (Hb Hcs). reflexivity.
+      * cbn [cstep] in E. pose proof (backend_compact_spec s r nranges commit_ok Hw) as Hb.
+        destruct (backend_compact s r nranges commit_ok) as [s1 [h res]] eqn:Eb. injection E as <- <-.
+        destruct res; try reflexivity.
+        assert (Hcs : c_cur s < two64).
+        { pose proof (bc_cur s r nranges commit_ok) as Hbc. rewrite Eb in Hbc. cbn [fst] in Hbc. lia. }
+        apply N.leb_le. apply (Hb Hcs). reflexivity.
+      * cbn [cstep] in E. pose proof (backend_compact_spec (mkC (c_cur s) 0 (c_rec s)) r nranges true Hw) as Hb.
+        destruct (backend_compact (mkC (c_cur s) 0 (c_rec s)) r nranges true) as [s1 [h res]] eqn:Eb. injection E as <- <-.
+        destruct res; try reflexivity. cbn [c_cur c_rec] in *.
+        assert (Hcs : c_cur s < two64) by lia.
+        apply N.leb_le. apply (Hb Hcs). reflexivity.
     + destruct (read_rev (c_cur s) (s8_op st)) as [r|] eqn:Er; [|reflexivity].
       destruct (r <? floor_of (c_rec s)) eqn:El.
       * apply N.ltb_lt in El. rewrite (below_refused s _ r Hw Er El) in E. injection E as <- <-. reflexivity.
